@@ -4,7 +4,7 @@ import os, sys, json, subprocess, tempfile, shutil, atexit
 VERIF = os.path.dirname(os.path.dirname(os.path.abspath(__file__)))
 
 def exe_path(variant="asan"):
-    return os.path.join(VERIF, ".build", variant, "p11sim")
+    return os.path.join(os.environ.get("VERIF_BUILD", os.path.join(VERIF, ".build")), variant, "p11sim")
 
 def scratch_root():
     for d in ("/dev/shm", "/var/tmp", "/tmp"):
